@@ -170,17 +170,6 @@ theorem C03_canonical_within_limits (S : Schema) (n : Node) (v : Spec.Value) (en
   obtain ⟨rfl, _⟩ := this
   exact ⟨fL, hv'⟩
 
-/-- Checking the sign of block byte sizes changes nothing for `decodeL Limits.impl` on this input.
-    Before the repair of `read_block_len` this was a hypothesis of `C03_de_rejects_invalid` and
-    `C03_invalid_is_err` (the implementation did not look at the byte size); it now holds for
-    every input (`C03_block_sizes_checked`) and is no longer assumed anywhere. -/
-def _root_.Avro.Spec.BlockSizesChecked (S : Schema) (node : Node) (bytes : Bytes) : Prop :=
-  ∀ fuelS r, Spec.decodeL Limits.impl S fuelS node bytes = some r →
-    Spec.decodeL Limits.implStrict S fuelS node bytes = some r
-
-theorem C03_block_sizes_checked (S : Schema) (node : Node) (bytes : Bytes) :
-    Spec.BlockSizesChecked S node bytes := fun _ _ h => h
-
 /-- **C03, soundness against the specification decoder.**  Whatever the implementation accepts,
     `Spec.decode` accepts with the same value and the same consumed length.  No hypothesis on the
     schema, the configuration, the fuel or the input. -/
@@ -220,6 +209,55 @@ theorem C03_invalid_is_err (cfg : DeConfig) (S : Schema) (node : Node) (depth fu
     (de deExtModel cfg S fuel node depth false .any s).2 o hs hl ha (Prod.ext hok rfl)
   rw [hinv fS] at hv
   cases hv
+
+/-- A block header with a negative count whose byte size is negative too: the specification's
+    decoder rejects it … -/
+theorem decodeBlockHeader_negative_size {bs rest1 rest2 : Bytes} {c size : Int}
+    (h1 : Spec.decodeLong bs = some (c, rest1)) (hc : c < 0)
+    (h2 : Spec.decodeLong rest1 = some (size, rest2)) (hsz : size < 0) :
+    Spec.decodeBlockHeader bs = none := by
+  unfold Spec.decodeBlockHeader
+  rw [h1]
+  simp only [ge_iff_le, show ¬ (0 ≤ c) by omega, if_false, h2, show ¬ (0 ≤ size) by omega]
+
+/-- **C03, the byte size of a block is checked.**  An array or map whose FIRST block header has a
+    negative item count followed by a NEGATIVE byte size (any two varints: canonical or padded)
+    is never deserialized into a value — whatever follows, whatever the schema, the configuration
+    and the fuel.  (Before the repair of `read_block_len` the implementation ignored the byte
+    size of a block it did not skip, and accepted such input.  This replaces a former statement
+    of the same name that compared `decodeL Limits.impl` with `decodeL Limits.implStrict`: since
+    the repair the two limits are the same term and that statement was `P → P`.) -/
+theorem C03_block_sizes_checked (cfg : DeConfig) (S : Schema) (node : Node) (k : Nat)
+    (hnode : node = .array k ∨ node = .map k) (depth fuel : Nat)
+    (s : RState) (hs : s.isSlice = true) (hl : s.limit = none) (ha : s.avail = 0)
+    (c size : Int) (rest1 rest2 : Bytes)
+    (h1 : Spec.decodeLong s.rest = some (c, rest1)) (hc : c < 0)
+    (h2 : Spec.decodeLong rest1 = some (size, rest2)) (hsz : size < 0) (o : Out) :
+    (de deExtModel cfg S fuel node depth false .any s).1 ≠ .ok o := by
+  apply C03_invalid_is_err cfg S node depth fuel s hs hl ha
+  have hh := decodeBlockHeader_negative_size h1 hc h2 hsz
+  intro fuelS
+  rcases hnode with rfl | rfl
+  · cases fuelS with
+    | zero => simp [Spec.decode]
+    | succ f =>
+      simp only [Spec.decode]
+      cases Spec.nodeOf S k with
+      | none => rfl
+      | some item =>
+        cases f with
+        | zero => simp [Spec.decodeBlocks]
+        | succ f => simp [Spec.decodeBlocks, hh]
+  · cases fuelS with
+    | zero => simp [Spec.decode]
+    | succ f =>
+      simp only [Spec.decode]
+      cases Spec.nodeOf S k with
+      | none => rfl
+      | some item =>
+        cases f with
+        | zero => simp [Spec.decodeMapBlocks]
+        | succ f => simp [Spec.decodeMapBlocks, hh]
 
 /-- With C04's totality: for a well-formed schema and at least `fuelBound` units of fuel (so that
     the model's own out-of-fuel `panic` is excluded) the outcome on invalid input is an `Err` of
